@@ -186,7 +186,23 @@ func verifSelf() string {
 
 // verifGoP names the goroutine started by an instrumented go statement and
 // remembers who started it.
-func verifGoP(parent string, site string, f func()) {
+// verifSelfEp: the endpoint the calling goroutine works for (-1 when none).  Evaluated at an instrumented go
+// statement, in the parent, so that the child inherits what the parent was doing AT THAT MOMENT.
+func verifSelfEp() int {
+	s := verifCur()
+	if s == nil {
+		return -1
+	}
+	id := goid()
+	s.mu.Lock()
+	defer s.mu.Unlock()
+	if g, ok := s.gs[id]; ok {
+		return g.ep
+	}
+	return -1
+}
+
+func verifGoP(parent string, parentEp int, site string, f func()) {
 	s := verifCur()
 	if s == nil {
 		f()
@@ -195,10 +211,8 @@ func verifGoP(parent string, site string, f func()) {
 	g := s.register(site)
 	s.mu.Lock()
 	g.parent = parent
-	if pg, ok := s.byName[parent]; ok {
-		g.ep = pg.ep
-	}
-	s.tlog = append(s.tlog, "G "+g.name+" "+parent)
+	g.ep = parentEp
+	s.tlog = append(s.tlog, fmt.Sprintf("G %d %s %s", g.ep, g.name, parent))
 	s.mu.Unlock()
 	defer s.unregister()
 	verifPoint(site + ".start")
@@ -215,6 +229,39 @@ func verifArm(site string, arm int) {
 	s.mu.Lock()
 	if g, ok := s.gs[id]; ok && !s.free {
 		s.tlog = append(s.tlog, fmt.Sprintf("A %d %s %s %d", g.ep, g.name, site, arm))
+	}
+	s.mu.Unlock()
+}
+
+// verifFrame records what the packetizer handed to the receive loop (trace only) and passes it on.
+func verifFrame(m rpcMessage, err error) (rpcMessage, error) {
+	s := verifCur()
+	if s == nil {
+		return m, err
+	}
+	id := goid()
+	s.mu.Lock()
+	if g, ok := s.gs[id]; ok && !s.free {
+		s.tlog = append(s.tlog, fmt.Sprintf("F %d %s %s", g.ep, g.name, verifDescribeFrame(m, err)))
+	}
+	s.mu.Unlock()
+	return m, err
+}
+
+// verifTrace appends a trace-only line (not part of the observable history).
+func verifTrace(format string, a ...interface{}) {
+	s := verifCur()
+	if s == nil {
+		return
+	}
+	id := goid()
+	s.mu.Lock()
+	name, ep := "-", -1
+	if g, ok := s.gs[id]; ok {
+		name, ep = g.name, g.ep
+	}
+	if !s.free {
+		s.tlog = append(s.tlog, fmt.Sprintf("T %d %s ", ep, name)+fmt.Sprintf(format, a...))
 	}
 	s.mu.Unlock()
 }
